@@ -6,8 +6,8 @@ from ..core.eqhash import Engine
 from ..core.model import ClassInfo, FuncInfo, dotted
 
 META = {
-    "technique": "equality/hash/match field-set analysis over every restriction class (resolved MRO, snakeoil GenericEquality modelled): identity hash with structural eq, hash fields outside eq fields, non-injective normaliser on one side only, attributes read by match/force_* but not compared; decision rule on _VersionMatch negation; cache-key site enumeration",
-    "level": "Decides necessary conditions of 'equal => same matches and same hash' per class: (R1) no structural __eq__ paired with identity hash; (R2) hash reads only compared attributes and applies the same non-injective normaliser (set(), _convert_ops) equality applies; (R3) every instance attribute read by match/force_True/force_False is compared by equality or derived from the same constructor input as a compared attribute; (R4) negation of a version restriction changes what equality sees; (R5) the restriction-keyed caches are keyed by the restriction object itself. Does NOT decide match equality on concrete values.",
+    "technique": "equality/hash/match field-set analysis over every restriction class (resolved MRO, snakeoil GenericEquality modelled): identity hash with structural eq, hash fields outside eq fields, non-injective normaliser on one side only, attributes read by match/force_* but not compared; decision rule on _VersionMatch negation; cache-key site enumeration; memoised-hash typestate (a cached_hash never covers a field that is still mutated in place unless the hash refuses such instances); combination rule (fields that equality identifies only through a normalising helper are read together by every match return)",
+    "level": "Decides necessary conditions of 'equal => same matches and same hash' per class: (R1) no structural __eq__ paired with identity hash; (R2) hash reads only compared attributes and applies the same non-injective normaliser (set(), _convert_ops) equality applies; (R3) every instance attribute read by match/force_True/force_False is compared by equality or derived from the same constructor input as a compared attribute; (R4) negation of a version restriction changes what equality sees; (R5) the restriction-keyed caches are keyed by the restriction object itself. Does NOT decide match equality on concrete values. (R6) a memoised __hash__ refuses instances whose hashed fields can still change; (R7) match never depends on a strict subset of a field combination that equality folds together (negate/operator set).",
     "note": "attributes are assumed to vary independently; snakeoil GenericEquality/WeaklyCachedABC semantics are library facts; classes whose equality is identity are trivially consistent",
 }
 
@@ -241,6 +241,91 @@ def run(ctx):
     ctx.check("R5", cc, any("lru_cache" in d for d in deco) and len(cc.params()) == 1, "lru-key", "compiled REQUIRED_USE is memoised on the single restriction argument")
     ctx.floor("R5", 3)
 
+    # ---- R6: a memoised hash never covers state that can still change --------------------------------
+    MUTATORS = {"append", "extend", "add", "update", "insert", "remove", "pop", "clear", "discard", "sort"}
+    n6 = 0
+    for K in sorted(P.all_classes(), key=lambda c: c.fq):
+        hm = K.methods.get("__hash__")
+        if hm is None or not any("cached_hash" in A.unparse(d) for d in hm.node.decorator_list):
+            continue
+        n6 += 1
+        hfields = set(E.self_reads(hm, K))
+        txt = A.unparse(hm.node)
+        if "__attr_comparison__" in txt:
+            ac = E.attr_comparison(K)[1] or ()
+            hfields |= {f for f in ac if not f.startswith("__")}
+        mutated = {}
+        for mname, m in K.methods.items():
+            if mname in ("__init__", "__hash__"):
+                continue
+            for c in A.calls(m.node):
+                if isinstance(c.func, ast.Attribute) and c.func.attr in MUTATORS and isinstance(c.func.value, ast.Attribute) and A.unparse(c.func.value.value) == "self":
+                    mutated.setdefault(c.func.value.attr, set()).add(mname)
+        at_risk = sorted(hfields & set(mutated))
+        if not at_risk:
+            ctx.ob("R6", K, f"{K.qual}: memoised hash over {sorted(hfields)}; none of them is mutated in place")
+            continue
+        for f in at_risk:
+            guard = [n for n in A.body_walk(hm.node) if isinstance(n, ast.If) and f"self.{f}" in A.unparse(n.test) and "isinstance(" in A.unparse(n.test) and any(isinstance(x, ast.Raise) for x in n.body)]
+            first_ret = min((r.lineno for r in A.returns(hm.node)), default=10**9)
+            ctx.check("R6", K, bool(guard) and guard[0].lineno < first_ret, f"memoised-hash-refuses-mutable:{f}", f"{K.qual}.__hash__ (memoised) refuses to hash while `{f}` can still be changed by {sorted(mutated[f])}",
+                      f"{K.qual}.__hash__ is memoised (cached_hash) and covers `{f}`, which {sorted(mutated[f])} mutates in place, but no longer refuses unfinalised instances: a tree hashed while being assembled keeps the hash of its earlier, shorter self — equal trees hash differently and restriction-keyed caches return results of the earlier query", node=hm.node)
+    ctx.check("R6", P.cls("pkgcore.restrictions.boolean", "base"), n6 >= 2, f"memoised-hash-classes:{n6}", f"{n6} classes with a memoised __hash__ inspected")
+    ctx.floor("R6", 2)
+
+    # ---- R7: fields identified by equality only in combination are read in combination by match ------------------
+    n7 = 0
+    for K in sorted(P.all_classes(), key=lambda c: c.fq):
+        eqm_ = K.methods.get("__eq__")
+        mm = K.methods.get("match")
+        if eqm_ is None or mm is None:
+            continue
+        helpers = {}
+        for c in A.calls(eqm_.node):
+            if isinstance(c.func, ast.Attribute) and A.unparse(c.func.value) == "self" and c.func.attr in K.methods and c.args and A.unparse(c.args[0]) in ("self", "other"):
+                h = K.methods[c.func.attr]
+                p0 = h.params()[0]
+                grp = {n.attr for n in A.walk(h.node) if isinstance(n, ast.Attribute) and A.unparse(n.value) == p0}
+                if len(grp) >= 2:
+                    helpers[c.func.attr] = grp
+        for hname, grp in sorted(helpers.items()):
+            direct = {n.left.attr for n in A.walk(eqm_.node) if isinstance(n, ast.Compare) and isinstance(n.left, ast.Attribute) and A.unparse(n.left.value) == "self" and len(n.comparators) == 1 and isinstance(n.comparators[0], ast.Attribute) and A.unparse(n.comparators[0].value) == "other" and n.comparators[0].attr == n.left.attr and not any(isinstance(p, ast.If) and p.test is not n and A.contains_node(p.test, n) and isinstance(p.test, ast.BoolOp) and isinstance(p.test.op, ast.And) for p in A.parents(n))}
+            combined = grp - direct
+            if len(combined) < 2:
+                continue
+            for r in A.returns(mm.node):
+                if r.value is None or isinstance(r.value, ast.Constant):
+                    continue
+                n7 += 1
+                reads = _return_reads(mm, r)
+                sub = reads & combined
+                ok = not sub or sub >= {f for f in combined if f in ("negate", "vals")} or sub == combined
+                ctx.check("R7", mm, ok, f"combined-fields-read-together:{','.join(sorted(sub))}", f"`return {A.unparse(r.value)[:50]}` reads {sorted(sub) or 'none'} of the fields equality only identifies in combination ({sorted(combined)} via {hname})",
+                          f"{K.qual}.match has `return {A.unparse(r.value)[:60]}`, whose outcome depends on {sorted(sub)} alone, while equality identifies instances by the combination {hname}({sorted(combined)}) (a negated '>' equals '<='): two equal, equally hashed restrictions can answer differently", node=r)
+    ctx.check("R7", P.cls("pkgcore.ebuild.restricts", "_VersionMatch"), n7 >= 1, f"combined-field-returns:{n7}", f"{n7} match returns of classes whose equality normalises a field combination inspected")
+    ctx.floor("R7", 2)
+
+
+def _return_reads(fn, ret):
+    """self attributes a return's value depends on: in the expression, in the definitions of the names it uses, and in
+    the tests of the ifs those definitions (or the return) sit under"""
+    out = set()
+    seen = set()
+
+    def expr(e):
+        for n in A.walk(e):
+            if isinstance(n, ast.Attribute) and A.unparse(n.value) == "self":
+                out.add(n.attr)
+            if isinstance(n, ast.Name) and n.id not in seen:
+                seen.add(n.id)
+                for t_, v, st in A.assignments(fn.node, n.id):
+                    expr(v)
+                    for p in A.parents(st):
+                        if isinstance(p, ast.If):
+                            expr(p.test)
+    expr(ret.value)
+    return out
+
 
 MUTANTS = [
     {"name": "containment-hash-drops-negate", "file": "src/pkgcore/restrictions/values.py", "old": '    __slots__ = __attr_comparison__ = ("vals", "all", "negate")', "new": '    __slots__ = ("vals", "all", "negate")\n    __attr_comparison__ = ("vals", "all")', "rule": "R3"},
@@ -251,3 +336,7 @@ MUTANTS = [
     {"name": "boolean-eq-drops-negate", "file": "src/pkgcore/restrictions/boolean.py", "old": '"__class__", "negate", "type", "restrictions"', "new": '"__class__", "type", "restrictions"', "rule": "R3"},
 ]
 TWINS = []
+MUTANTS += [
+    {"name": "hash-unfinalised", "file": "src/pkgcore/restrictions/boolean.py", "old": "        if not isinstance(self.restrictions, tuple):\n            raise TypeError(f\"{self!r} isn't finalized\")\n        return hash(tuple(getattr(self, x) for x in self.__attr_comparison__))", "new": "        return hash((self.__class__, self.negate, self.type, tuple(self.restrictions)))", "rule": "R6"},
+    {"name": "unversioned-returns-negate", "file": "src/pkgcore/ebuild/restricts.py", "old": "        if pkg.version is None:\n            return False\n\n        return (cpv.ver_cmp(", "new": "        if pkg.version is None:\n            return self.negate\n\n        return (cpv.ver_cmp(", "rule": "R7"},
+]
